@@ -3,6 +3,7 @@ use crate::report::Tier;
 pub mod c01;
 pub mod c02;
 pub mod c03;
+pub mod c04;
 pub mod c12;
 pub mod c13;
 pub mod c17;
@@ -13,6 +14,8 @@ pub fn dispatch(id: &str, tier: Tier) -> i32 {
         "C01" => c01::run(tier).finish(),
         "C02" => c02::run(tier).finish(),
         "C03" => c03::run(tier).finish(),
+        "C04" => c04::run(tier).finish(),
+        "C05" => c04::run_c05(tier).finish(),
         "C12" => c12::run(tier).finish(),
         "C13" => c13::run(tier).finish(),
         "C17" => c17::run(tier).finish(),
